@@ -59,10 +59,19 @@ func callArgs(i int) string { return fmt.Sprintf("a%d", i) }
 
 // f is what the tool called `name` answers on `args`; the handler's answer is distinguishable from any tool's.
 func f(name, args string) string {
-	if name == unknownName {
+	if strings.HasPrefix(name, unknownName) {
 		return "H:" + name + "(" + args + ")"
 	}
 	return name + "(" + args + ")"
+}
+
+// wireName is the tool name call i carries in the message: every unknown call has its own unknown name
+// (u0, u1, ...), so that the handler's answer is a function of that call's name.
+func wireName(calls []string, i int) string {
+	if calls[i] == unknownName {
+		return fmt.Sprintf("%s%d", unknownName, i)
+	}
+	return calls[i]
 }
 
 var toolErr = map[string]error{
@@ -196,9 +205,9 @@ type observation struct {
 
 func (sp *spec) message() *schema.Message {
 	m := &schema.Message{Role: schema.Assistant}
-	for i, n := range sp.calls {
+	for i := range sp.calls {
 		m.ToolCalls = append(m.ToolCalls, schema.ToolCall{ID: callID(i), Type: "function",
-			Function: schema.FunctionCall{Name: n, Arguments: callArgs(i)}})
+			Function: schema.FunctionCall{Name: wireName(sp.calls, i), Arguments: callArgs(i)}})
 	}
 	return m
 }
@@ -447,8 +456,8 @@ func (sp *spec) judge(w *world, ob *observation, x *vsched.Exec) (string, error)
 		return "", bad("unexpected-error", "no tool fails but the call failed: %s [%s]", firstLine(ob.err.Error()), order)
 	}
 	var want []string
-	for i, c := range sp.calls {
-		want = append(want, fmt.Sprintf("%s/%s/%s", schema.Tool, callID(i), f(c, callArgs(i))))
+	for i := range sp.calls {
+		want = append(want, fmt.Sprintf("%s/%s/%s", schema.Tool, callID(i), f(wireName(sp.calls, i), callArgs(i))))
 	}
 	wantS := "[" + strings.Join(want, " ") + "]"
 	if sp.mode == "stream" {
@@ -491,7 +500,7 @@ func classify(ms []*schema.Message, sp *spec, n int) string {
 		}
 	}
 	for i, m := range ms {
-		if m.Content != f(sp.calls[i], callArgs(i)) {
+		if m.Content != f(wireName(sp.calls, i), callArgs(i)) {
 			return "wrong-content"
 		}
 	}
